@@ -39,7 +39,17 @@ CloneToY == /\ ym' = xm /\ yw' = xw /\ last' = R("CloneToY", <<>>, <<>>) /\ UNCH
 Sel(k, v) == k = 2 \/ v % 2 = k
 IterRemove(k) == /\ last' = R("IterRemove", <<k>>, <<Sorted(xm)>>) /\ xm' = {v \in xm : ~Sel(k, v)}
                  /\ UNCHANGED <<xw, ym, yw>>
+\* dense stretches (whole words, whole byte columns full): all of lo..hi added / removed at once; r = how many changed
+Rng(lo, hi) == {n \in lo..hi : TRUE}
+AddRange(lo, hi) == /\ xm' = xm \cup Rng(lo, hi) /\ xw' = Max(xw, IF hi >= lo THEN Need(hi) ELSE 0)
+                    /\ last' = R("AddRange", <<lo, hi>>, <<Cardinality(Rng(lo, hi) \ xm)>>) /\ UNCHANGED <<ym, yw>>
+RemoveRange(lo, hi) == /\ xm' = xm \ Rng(lo, hi) /\ last' = R("RemoveRange", <<lo, hi>>, <<Cardinality(Rng(lo, hi) \cap xm)>>)
+                       /\ UNCHANGED <<xw, ym, yw>>
+\* Y := X.Clone(), then both grow beyond the capacity they had in common (X first), nothing else in between
+CloneGrowBoth(a, b) == /\ ym' = xm \cup {b} /\ yw' = Max(xw, Need(b)) /\ xm' = xm \cup {a} /\ xw' = Max(xw, Need(a))
+                       /\ last' = R("CloneGrowBoth", <<a, b>>, <<>>)
 Next == \/ \E k \in 0..2 : IterRemove(k)
+        \/ \E a \in U, b \in U : (W(a) >= xw /\ W(b) >= xw /\ a # b) /\ CloneGrowBoth(a, b)
         \/ \E n \in U : Add(n) \/ Remove(n) \/ Contains(n) \/ Grow(n) \/ AddY(n) \/ RemoveY(n)
         \/ Diff \/ Intersect \/ Merge \/ CloneToY
 vars == <<xm, xw, ym, yw, last>>
